@@ -248,6 +248,9 @@ namespace adm {
       for (auto& audioObject : audioObjects_) {
         audioObject->removeReference(object);
       }
+      for (auto& audioObject : audioObjects_) {
+        audioObject->removeComplementary(object);
+      }
       for (auto& audioContent : audioContents_) {
         audioContent->removeReference(object);
       }
